@@ -174,17 +174,19 @@ def p_ndarray_data(monitor, w):
     if monitor in _NDARRAY_CONSEQUENCES:
         return w.get("arm") == "tensor" and w.get("ndarray_payload") is True\
             and w.get("op") in ("subs", "lambdify")
+    # numpy.ndarray(<substituted entries>) reads them as a shape: TypeError
+    # for non-integers, ValueError for negative ones, MemoryError for big ones
     return monitor in ("subs-returns", "lambdify-returns")\
-        and w.get("exception") == "TypeError"\
-        and "cannot be interpreted as an integer" in w.get("message", "")\
+        and w.get("exception") in ("TypeError", "ValueError", "MemoryError")\
         and w.get("raising_box") == "tensor.Box"\
         and w.get("raising_container") == "ndarray"
 
 
 def p_tensor_subs_plain(monitor, w):
-    if monitor != "tensor-subs-raw" or not w.get("plain_entries"):
+    if monitor not in ("tensor-subs-raw", "cqmap-subs-model")\
+            or not w.get("plain_entries"):
         return False
-    if w.get("failure") == "value-mismatch":
+    if w.get("failure") == "value-mismatch" and monitor == "tensor-subs-raw":
         return w.get("mismatch_only_at_plain_entries") is True
     message = w.get("message", "")
     return w.get("failure") == "exception" and w.get("list_style")\
@@ -218,6 +220,21 @@ def p_cg_unguarded(monitor, w):
     return False
 
 
+_PARAMETRIZED = tuple("quantum.gates." + n for n in (
+    "Rx", "Ry", "Rz", "CRz", "CRx", "CU1", "Scalar", "Sqrt", "MixedScalar"))
+
+
+def p_parametrized_lambdify_unguarded(monitor, w):
+    """
+    Parametrized.lambdify has no 'none of the symbols occurs -> return self'
+    guard: a box whose phase is a *function* (sin, cos ...) of other symbols
+    is pushed through numpy and raises.
+    """
+    return monitor == "lambdify-returns" and w.get("exception") == "TypeError"\
+        and w.get("raising_box") in _PARAMETRIZED\
+        and w.get("raising_box_has_symbol") is False
+
+
 PREDICATES = {
     "parametrized_subs_sympy_number": p_sympy_number,
     "scalar_mixedness_dropped": p_scalar_mixed,
@@ -228,6 +245,7 @@ PREDICATES = {
     "tensor_subs_plain_numbers": p_tensor_subs_plain,
     "cqmap_subs": p_cqmap_subs,
     "classicalgate_subs_unguarded": p_cg_unguarded,
+    "parametrized_lambdify_unguarded": p_parametrized_lambdify_unguarded,
 }
 
 # --------------------------------------------------------------------------
@@ -824,7 +842,7 @@ def apply_subs(d, args_list):
     return cur
 
 
-def locate_failing(d, call, outer):
+def locate_failing(d, call, outer, symbols=()):
     """
     Which boxes raise when the operation is applied box by box, and which of
     them raised the exception seen by the whole call (first with the same
@@ -837,14 +855,15 @@ def locate_failing(d, call, outer):
         except Exception as err:
             failing.append((clsname(box),
                             type(getattr(box, "data", None)).__name__,
-                            type(err).__name__, str(err)[:300]))
+                            type(err).__name__, str(err)[:300],
+                            bool(sym.box_symbols(box) & set(symbols))))
     same = [f for f in failing
             if f[2] == type(outer).__name__ and f[3] == str(outer)[:300]]
-    first = (same or failing or [(None, None, None, None)])[0]
+    first = (same or failing or [(None, None, None, None, None)])[0]
     return dict(failing_boxes=[f[0] for f in failing],
                 failing_containers=[f[1] for f in failing],
                 raising_box=first[0], raising_container=first[1],
-                raising_box_has_symbol=None)
+                raising_box_has_symbol=first[4])
 
 
 def tensor_subs_checks(ctx, value, args_list, model_vecs, envs, base):
@@ -1110,7 +1129,7 @@ def one_lambdify(ctx, rng, arm, d, drepr, classes, present, evaluable, mixed,
     except Exception as err:
         report(ctx, "lambdify-returns", exception=type(err).__name__,
                message=str(err)[:300], **locate_failing(
-                   d, lambda box: box.lambdify(*xs)(*vs), err), **base)
+                   d, lambda box: box.lambdify(*xs)(*vs), err, xs), **base)
         box_by_box(ctx, d, xs, vs, pairs, envs, base)
         return 0
     ctx.ok("lambdify-returns")
